@@ -36,8 +36,8 @@ import re
 
 from . import common
 
-MODULES = ["CoapVerif.Props.C04", "CoapVerif.Props.C04Observe", "CoapVerif.Props.C04Conserv", "CoapVerif.Props.C04Cancel", "CoapVerif.Props.C04ObserveRuns", "CoapVerif.Props.C04Progress"]
-GENERATED = ["Blockwise.lean", "BlockwiseXfer.lean"]
+MODULES = ["CoapVerif.Props.C04", "CoapVerif.Props.C04Observe", "CoapVerif.Props.C04Conserv", "CoapVerif.Props.C04Cancel", "CoapVerif.Props.C04ObserveRuns", "CoapVerif.Props.C04Progress", "CoapVerif.Props.C04GiveUp"]
+GENERATED = ["Blockwise.lean", "BlockwiseXfer.lean", "SyncShape.lean", "SyncCallSites.lean"]
 
 POST, PUT, GET, CHANGED, CONTENT = 2, 3, 1, 68, 69
 
@@ -1142,6 +1142,8 @@ def explore(ctx, art):
     glue_level(ctx, art, "TestC04UdpDial", "udpdial")
     glue_level(ctx, art, "TestC04Discover", "discover")
     glue_level(ctx, art, "TestC04Pool", "pool")
+    glue_level(ctx, art, "TestC04GiveUp", "giveup")
+    glue_level(ctx, art, "TestC04Retrans", "retrans")
     glue_level(ctx, art, "TestC04Long", "long")
     glue_level(ctx, art, "TestC04Observe", "observe")
     csm_level(ctx, art)
@@ -1200,7 +1202,7 @@ def guard_level(ctx, art, exe=None, realtime=False, tag="guard"):
     ctx.cov[tag + "_scenarios"] = n
 
 
-GLUE_FILES = {"TestC04Long": "conn_test.go", "TestC04Csm": "conn_test.go", "TestC04Pool": "pool_test.go", "TestC04Observe": "observe_test.go"}
+GLUE_FILES = {"TestC04Long": "conn_test.go", "TestC04Csm": "conn_test.go", "TestC04Pool": "pool_test.go", "TestC04GiveUp": "giveup_test.go", "TestC04Retrans": "retrans_test.go", "TestC04Observe": "observe_test.go"}
 
 
 def glue_level(ctx, art, test, tag, prop="C04", clause="exact", only_prefix=None):
